@@ -708,6 +708,14 @@ func (x *G) boundary() []*node {
 func gen(g *hx.Gen) {
 	n := g.Count(6000, 120000)
 	r := g.R
+	if g.Thorough() {
+		// 2^24 boundaries: 24-bit prefix overflow / maximum, ASN.1 4-octet long form (16 MiB buffers: thorough tier only)
+		g.Stat("boundary.2^24")
+		g.Emit("prog kind=grow cap=0 pre=- p=L3(r:16777216:00)")
+		g.Emit("prog kind=grow cap=0 pre=- p=u2:7,L3(r:16777215:01)")
+		g.Emit("prog kind=grow cap=0 pre=- p=u1:1,A30(r:16777216:07),u1:2")
+		g.Emit("prog kind=grow cap=0 pre=- p=L4(A04(r:16777215:09))")
+	}
 	for i := 0; i < n; i++ {
 		x := &G{g: g, r: r}
 		x.big = r.Chance(1, 12)
